@@ -290,7 +290,9 @@ func genC15(r *Rng, tier string) (*Scenario, []Op) {
 	// rendering entry points only, with healthy writers (writer faults are C17's)
 	var ops []Op
 	for _, o := range alpha {
-		if o.W == nil {
+		// healthy writers only (writer faults are C17's); no operation in which the CALLER changes
+		// shared data, which would be the caller's own race
+		if o.W == nil && o.PreMutate == 0 {
 			ops = append(ops, o)
 		}
 	}
@@ -384,7 +386,7 @@ func (p c15) Run(seed uint64, run int, tier string, acc *Acc) *Violation {
 		steps[ti] = t.Steps
 		acc.Steps += t.Steps
 		for _, h := range t.Hits {
-			hits[ti] = append(hits[ti], hit{h.Step, h.Site >= 0 && simrt.Sites[h.Site].Mut})
+			hits[ti] = append(hits[ti], hit{h.Step, h.Site < 0 || simrt.Sites[h.Site].Mut})
 		}
 	}
 	nsched := 12
